@@ -1,6 +1,11 @@
 //! Counting global allocator (per-thread live / peak bytes) for the
 //! "memory out of proportion" oracle of C06. Thread-locals are const
 //! initialised and have no destructor, so they are safe inside the allocator.
+//!
+//! A single request above HARD_CAP is refused (null => the process aborts, as it
+//! would on a machine that cannot satisfy it); before refusing, the allocator
+//! prints a tagged line and a backtrace to stderr, from which the supervising
+//! parent process derives the discriminator of the `<id>.abort` violation.
 
 use std::{
   alloc::{GlobalAlloc, Layout, System},
@@ -9,9 +14,12 @@ use std::{
 
 use rustdds::verif::hooks::{set_alloc_probe, AllocStats};
 
+pub const HARD_CAP: usize = 1 << 30; // 1 GiB in one request
+
 thread_local! {
   static LIVE: Cell<isize> = const { Cell::new(0) };
   static PEAK: Cell<isize> = const { Cell::new(0) };
+  static REPORTING: Cell<bool> = const { Cell::new(false) };
 }
 
 pub struct Counting;
@@ -29,8 +37,21 @@ fn add(n: isize) {
   });
 }
 
+#[cold]
+fn refuse(size: usize) {
+  let already = REPORTING.try_with(|r| r.replace(true)).unwrap_or(true);
+  if !already {
+    eprintln!("VERIF-OVERSIZE-ALLOC size={size}");
+    eprintln!("{}", std::backtrace::Backtrace::force_capture());
+  }
+}
+
 unsafe impl GlobalAlloc for Counting {
   unsafe fn alloc(&self, layout: Layout) -> *mut u8 {
+    if layout.size() > HARD_CAP {
+      refuse(layout.size());
+      return std::ptr::null_mut();
+    }
     let p = System.alloc(layout);
     if !p.is_null() {
       add(layout.size() as isize);
@@ -42,6 +63,10 @@ unsafe impl GlobalAlloc for Counting {
     add(-(layout.size() as isize));
   }
   unsafe fn alloc_zeroed(&self, layout: Layout) -> *mut u8 {
+    if layout.size() > HARD_CAP {
+      refuse(layout.size());
+      return std::ptr::null_mut();
+    }
     let p = System.alloc_zeroed(layout);
     if !p.is_null() {
       add(layout.size() as isize);
@@ -49,6 +74,10 @@ unsafe impl GlobalAlloc for Counting {
     p
   }
   unsafe fn realloc(&self, ptr: *mut u8, layout: Layout, new_size: usize) -> *mut u8 {
+    if new_size > HARD_CAP {
+      refuse(new_size);
+      return std::ptr::null_mut();
+    }
     let p = System.realloc(ptr, layout, new_size);
     if !p.is_null() {
       add(new_size as isize - layout.size() as isize);
